@@ -14,10 +14,10 @@ import (
 )
 
 type c24Names struct {
-	rel, enum, opStruct                 string
-	scopeBegin, scopeEnd, gotoOp        string
-	compiler, resolver                  string
-	stackType                           string
+	rel, enum, opStruct                     string
+	scopeBegin, scopeEnd, gotoOp            string
+	compiler, resolver                      string
+	stackType                               string
 	newLabel, getLabel, pushScope, popScope string
 }
 
